@@ -148,7 +148,12 @@ func TestGvcReplay(t *testing.T) {
 		}
 	case "UInt64ToString":
 		for _, x := range append(vals, 9, 10, 99, 100, 18446744073709551615, gvcModelU64("x", 12345)) {
-			if got, want := UInt64ToString(x), strconv.FormatUint(x, 10); got != want {
+			var got string
+			if gvcPanics(func() { got = UInt64ToString(x) }) {
+				confirm("UInt64ToString(%d) panics", x)
+				return
+			}
+			if want := strconv.FormatUint(x, 10); got != want {
 				confirm("UInt64ToString(%d) = %q, expected %q", x, got, want)
 				return
 			}
